@@ -36,7 +36,7 @@ What this file offers (nothing here imports a property driver; it only imports a
 
 Slot order (the order of ``slots`` and of ``Evo.agent_locs`` in Coq MUST agree):
   for every network attribute in registry order (eval then its shared nets, group by group):
-      enc cells, head cells, hid cells, cfg cells
+      enc cells, head cells, henc cells, (const: none), cfg cells, buf cells
   for every optimizer in registry order: ost cells
   reg cells (hp_config order), book cells (scores, fitness, steps), ext cells (sorted by attribute name)
 """
@@ -109,9 +109,9 @@ def net_config_for(kind, family):
             enc = {"channel_size": [2], "kernel_size": [3], "stride_size": [1], "activation": "ReLU",
                    "min_channel_size": 1, "max_channel_size": 4}
     elif family == "dict":
-        enc = {"latent_dim": 4, "init_dicts": {}}
+        enc = {"latent_dim": 8, "init_dicts": {}}
         if kind == "full":
-            enc = {"latent_dim": 4, "init_dicts": {}, "vector_space_mlp": False}
+            enc = {"latent_dim": 8, "init_dicts": {}, "vector_space_mlp": False}
         enc = {k: v for k, v in enc.items() if k != "init_dicts"}
     cfg = {"encoder_config": enc}
     if kind == "full":
@@ -342,19 +342,26 @@ def _is_enc(key):
 
 def _net_slots(prefix, obj):
     """slots of one network attribute (a module or a list of modules)"""
-    enc, head, hid, cfg = [], [], [], []
+    enc, head, hid, cfg, buf = [], [], [], [], []
     for mi, m in enumerate(_modules_of(obj)):
         m = getattr(m, "_orig_mod", m)
         tag = f"{prefix}[{mi}]" if isinstance(obj, (list, tuple)) else prefix
         sd = m.state_dict(keep_vars=True)
+        pnames = {k for k, _ in m.named_parameters()}
         seen = set()
         for k, t in sd.items():
             if t.numel() == 0:
                 continue
             seen.add(id(t))
-            (enc if _is_enc(k) else head).append((f"{tag}.{k}", t))
+            if k not in pnames:
+                buf.append((f"{tag}.{k}", t))       # registered buffer: in state_dict, not in parameters()
+            else:
+                (enc if _is_enc(k) else head).append((f"{tag}.{k}", t))
         # tensors held by the module tree that are not in state_dict (detached copies, plain attributes)
+        from agilerl.modules.base import EvolvableModule as _EM
         for mn, sub in m.named_modules():
+            if isinstance(sub, _EM):
+                continue      # plain tensor attributes of evolvable modules are constants (e.g. EvolvableCNN.sample_input)
             cand = list(sub.__dict__.items()) + list(sub._parameters.items()) + list(sub._buffers.items())
             for an, v in cand:
                 if isinstance(v, torch.Tensor) and id(v) not in seen and v.numel() > 0:
@@ -362,7 +369,7 @@ def _net_slots(prefix, obj):
                     hid.append((f"{tag}.{mn + '.' if mn else ''}{an}", v))
         for path, lst in _cfg_lists(m.init_dict):
             cfg.append((f"{tag}.init_dict.{path}", lst))
-    return enc, head, hid, cfg
+    return enc, head, hid, cfg, buf
 
 
 def _cfg_lists(d, path=""):
@@ -401,7 +408,7 @@ def slots(agent):
     a = unwrap(agent)
     out = []
     for n in net_names(a):
-        enc, head, hid, cfg = _net_slots(n, getattr(a, n))
+        enc, head, hid, cfg, buf = _net_slots(n, getattr(a, n))
         henc = [x for x in hid if _is_enc(x[0])]
         # constants rebuilt by the constructor (action bounds, Rainbow support) are read-only and are aliased or not
         # depending on how the network object was made (deepcopy vs constructor): they are not slots
@@ -411,6 +418,8 @@ def slots(agent):
                 out.append((name, cls, ("T", t.data_ptr()), _fp_tensor(t)))
         for name, lst in cfg:
             out.append((name, "cfg", ("O", id(lst)), _fp_obj(lst)))
+        for name, t in buf:
+            out.append((name, "buf", ("T", t.data_ptr()), _fp_tensor(t)))
     for oc in a.registry.optimizers:
         w = getattr(a, oc.name)
         for oi, o in enumerate(_opt_list(w)):
@@ -503,10 +512,10 @@ def structure(agent):
     a = unwrap(agent)
     nets = OrderedDict()
     for n in net_names(a):
-        enc, head, hid, cfg = _net_slots(n, getattr(a, n))
+        enc, head, hid, cfg, buf = _net_slots(n, getattr(a, n))
         params = [p for m in _modules_of(getattr(a, n)) for p in getattr(m, "_orig_mod", m).parameters()]
         nhenc = sum(1 for x in hid if _is_enc(x[0]))
-        nets[n] = {"enc": len(enc), "head": len(head), "henc": nhenc, "const": 0, "cfg": len(cfg),
+        nets[n] = {"enc": len(enc), "head": len(head), "henc": nhenc, "const": 0, "cfg": len(cfg), "buf": len(buf),
                    "arch": arch_descr(a, n), "param_ids": [id(p) for p in params]}
     opts = OrderedDict()
     for oc in a.registry.optimizers:
@@ -621,7 +630,7 @@ def apply_score(agent, x):
 
 
 # ------------------------------------------------------------------------------------------ Coq emission
-CLS_ID = {"enc": 0, "head": 1, "henc": 2, "const": 3, "cfg": 4, "ost": 5, "reg": 6, "book": 7, "ext": 8}
+CLS_ID = {"enc": 0, "head": 1, "henc": 2, "const": 3, "cfg": 4, "ost": 5, "reg": 6, "book": 7, "ext": 8, "buf": 9}
 ACT_SKIP = ["PPO", "DDPG", "TD3", "IPPO", "MADDPG", "MATD3"]
 
 
@@ -665,7 +674,7 @@ def block_layout(snap_agent, reg, tab):
     sl = snap_agent["slots"]
     owners = []
     for n in snap_agent["struct"]["nets"]:
-        for c in ("enc", "head", "henc", "const", "cfg"):
+        for c in ("enc", "head", "henc", "const", "cfg", "buf"):
             owners.append(((tab.name(n), CLS_ID[c]), n, c))
     for o in snap_agent["struct"]["opts"]:
         owners.append(((tab.name(o), 5), o, "ost"))
